@@ -608,6 +608,28 @@ example : Model.LitFormat.fmtInt .u32 4294967295 = [52, 50, 57, 52, 57, 54, 55, 
     (tokenIntermediate ([52, 50, 57, 52, 57, 54, 55, 50, 57, 53, 117] ++ [41]) false).toOption = some ([41], .litIntU32 4294967295) := by
   decide
 
+/-- **emit_negative_exact**: a finite negative float (sign bit set; Rust's `Display` writes `-` and the digits of the
+magnitude) is printed as `-` followed by exactly the text of its magnitude, and `token_intermediate` reads that `-` as
+the token `Minus` and leaves the magnitude's text — to which `emit_value_exact` applies — untouched.  (`-2^63` is printed
+exactly, `-9223372036854775808.0`, while `+2^63` saturates: excluded here, covered by the run.)  Negative integers are
+built as `Minus` applied to the magnitude by `generate_literal` itself (`literal_tables_as_modelled`). -/
+theorem emit_negative_exact (k : Model.LitFormat.Kind) (ty : Option FloatType) (hk : k.floatType? = some ty) (msl : Bool)
+    (mag : Nat) (hfin : mag < k.fmt.infBits) (hmax : ¬ (k = .f32 ∧ msl = true ∧ mag = k.fmt.infBits - 1))
+    (h63 : Model.LitFormat.wholeValue? k.fmt mag ≠ some (2 ^ 63)) (disp t : Bytes)
+    (ht : Model.LitFormat.fmtFloat k msl mag disp = .ok t) :
+    Model.LitFormat.fmtFloat k msl (Model.LitFormat.signBit k.fmt + mag) (45 :: disp) = .ok (45 :: t) ∧
+    ∀ (d : UInt8) (r rest : Bytes) (inc : Bool), t = d :: r → 48 ≤ d.toNat ∧ d.toNat ≤ 57 →
+      tokenIntermediate (45 :: t ++ rest) inc = .ok (t ++ rest, .simple .Minus) := by
+  refine ⟨?_, ?_⟩
+  · rw [Model.LitFormat.fmtFloat_negative k ty hk msl mag hfin hmax h63 disp, ht]
+  · intro d r rest inc htd hd
+    subst htd
+    exact minus_before_digit d (r ++ rest) hd inc
+
+/-- non-vacuity: `-0.1f` (`0xbdcccccd`): printed `-0.1f`, read as `Minus`, `Float32 0x3dcccccd` -/
+example : (Model.LitFormat.fmtFloat .f32 false 0xbdcccccd [45, 48, 46, 49]).toOption = some [45, 48, 46, 49, 102] ∧
+    (tokenIntermediate [45, 48, 46, 49, 102] false).toOption = some ([48, 46, 49, 102], .simple .Minus) := by decide
+
 /-- **emit_f32_double_rounding_witness** (negation witness for the `f`/`h` kinds without the `Display` hypothesis): the
 single `0x15ae43fd` has the shortest round-trip decimal `7.038531e-26` — as a single, read directly, it is the nearest —
 but the lexer reads a literal through the nearest double and narrows once, and the nearest double of that decimal is the
